@@ -146,6 +146,18 @@ func isRepoFunc(f *ssa.Function) bool {
 		}
 		p = x.Package()
 	}
+	if p == nil {
+		if o := f.Origin(); o != nil {
+			p = o.Package() // an instance of a generic function of the repo
+		}
+	}
+	if p == nil {
+		// a synthetic wrapper (promoted method, bound method): judged by the method it wraps
+		if obj := f.Object(); obj != nil && obj.Pkg() != nil {
+			path := obj.Pkg().Path()
+			return len(path) >= len(modPath) && path[:len(modPath)] == modPath
+		}
+	}
 	return p != nil && p.Pkg != nil && len(p.Pkg.Path()) >= len(modPath) && p.Pkg.Path()[:len(modPath)] == modPath
 }
 
@@ -243,13 +255,70 @@ func (r *Region) Dominates(a, b ssa.Instruction) bool {
 	if !dominatesInstr(x, y) {
 		return false
 	}
-	// a inside helper(s) below x: it must be unavoidable on the way out of each
+	// a inside helper(s) below x: it must be unavoidable on the way out of each –
+	// or avoidable only on paths that end in an error return, provided the
+	// error is handed on by every caller in between and b is reached only
+	// when the outermost call reported no error
 	for k := i + 1; k < len(ca); k++ {
-		if !passesBeforeReturn(ca[k]) {
+		if passesBeforeReturn(ca[k]) {
+			continue
+		}
+		if !successPasses(ca[k]) {
+			return false
+		}
+		call, isCall := ca[k-1].(*ssa.Call)
+		if !isCall {
+			return false
+		}
+		if k-1 == i {
+			e, has := errResult(call)
+			if !has || e == nil {
+				return false
+			}
+			isNil, _ := nilTestEdges(e)
+			if len(isNil) == 0 {
+				return false
+			}
+			if hit, _ := reach(siteOf(call), isInstr(y), newCuts().addEdges(isNil)); hit {
+				return false
+			}
+		} else if !callErrorArmReturns(call) {
 			return false
 		}
 	}
 	return true
+}
+
+// successPasses: every path from f's entry to a return that does not execute
+// `in` ends in a return whose (last) error result is known to be non-nil.
+func successPasses(in ssa.Instruction) bool {
+	f := in.Parent()
+	res := f.Signature.Results()
+	if res.Len() == 0 || !isErrorType(res.At(res.Len()-1).Type()) {
+		return false
+	}
+	var pf *pathFacts
+	ok := true
+	reach(entrySite(f), func(x ssa.Instruction) bool {
+		ret, isRet := x.(*ssa.Return)
+		if !isRet {
+			return false
+		}
+		vals := returnValues(ret)
+		last := vals[len(vals)-1]
+		if definitelyNonNilError(last, nil) {
+			return false
+		}
+		if pf == nil {
+			pf = newPathFacts(f)
+		}
+		if st := pf.At(ret); st == nil || st.knownNonNil(last) {
+			return false
+		}
+		ok = false
+		return false
+	}, newCuts().addInstr(in))
+	return ok
 }
 
 // Guarded: every path to site crosses one of the edges.  Edges may belong to
